@@ -1,5 +1,6 @@
 import Pyrtma.Proofs.Manager
 import Pyrtma.Proofs.ManagerOrder
+import Pyrtma.Spec.Manager
 /-!
 # C14 — undeliverable messages are reported, not silently lost
 
@@ -88,6 +89,39 @@ notice.) -/
 theorem no_notice_about_a_notice_ever (cfg : Cfg) (rs : List Round) :
     dataSends (guardNotice cfg) (run cfg rs).out = [] :=
   run_quiet cfg (tag_guardNotice cfg) (ctl_guardNotice cfg) (fun _ => rfl) rs
+
+/-- **The oracle clause holds on every run of the model**: the Spec clause the driver evaluates on the implementation's
+event log (`Spec.checkNoNoticeAboutNotices`: no FAILED_MESSAGE about a FAILED_MESSAGE / RTMA_LOG*) never fires on the
+event log of the model, for any history. -/
+theorem spec_guard_clause_passes_on_model (cfg : Cfg) (rs : List Round) (a : Spec.A) :
+    (Spec.checkNoNoticeAboutNotices cfg a (run cfg rs).out).errs = a.errs := by
+  have h := no_notice_about_a_notice_ever cfg rs
+  have hag : ∀ f : Frame, Spec.aboutNotice cfg f = guardNotice cfg f.body := by
+    intro f; unfold Spec.aboutNotice guardNotice; cases f.body <;> rfl
+  have key : ∀ evs : List Ev, dataSends (guardNotice cfg) evs = [] →
+      (Spec.sends evs).any (fun p => Spec.aboutNotice cfg p.2.2) = false := by
+    intro evs
+    induction evs with
+    | nil => intro _; rfl
+    | cons e rest ih =>
+      intro he
+      have hsplit : dataSends (guardNotice cfg) (e :: rest) = dataSends (guardNotice cfg) [e] ++ dataSends (guardNotice cfg) rest :=
+        dataSends_append _ [e] rest
+      rw [hsplit] at he
+      have h1 := (List.append_eq_nil_iff.mp he).1
+      have h2 := ih (List.append_eq_nil_iff.mp he).2
+      cases e with
+      | send u c f =>
+        have hs : Spec.sends (Ev.send u c f :: rest) = (u, c, f) :: Spec.sends rest := rfl
+        rw [hs, List.any_cons, h2, Bool.or_false]
+        show Spec.aboutNotice cfg f = false
+        rw [hag]
+        cases hg : guardNotice cfg f.body with
+        | false => rfl
+        | true => simp [dataSends, hg] at h1
+      | _ => exact h2
+  unfold Spec.checkNoNoticeAboutNotices Spec.A.chk
+  rw [key _ h]; rfl
 
 /-- the recursion guard is exactly FAILED_MESSAGE and RTMA_LOG … RTMA_LOG_DEBUG -/
 theorem guard_types (cfg : Cfg) (t : Int) :
